@@ -219,6 +219,9 @@ def engine_case(ctx, mr, rng, case):
         e = CryptoEngine(dev=dev, setup_b9_keys=False)
     init = init_ops(e)
     init_dump = dump_engine(e)
+    # a second engine made the same way in the same process: what happens to the first one is none of its business
+    twin = CryptoEngine(dev=dev) if mode == 'b9' else CryptoEngine(dev=dev, setup_b9_keys=False)
+    twin_dump = dump_engine(twin)
     # file wrappers made BEFORE the key operations: a wrapper is bound to the engine and the slot, not to the key the slot held (or
     # lacked) when it was made
     import io as _io
@@ -303,6 +306,11 @@ def engine_case(ctx, mr, rng, case):
                          expected.hex() if isinstance(expected, bytes) else expected,
                          res.hex() if isinstance(res, bytes) else res,
                          f'{kind} factory for slot {slot:#x} does not use the slot\'s normal key / wrong error')
+    ctx.stat('twin_engines')
+    if dump_engine(twin) != twin_dump:
+        d_ = first_diff(twin_dump, dump_engine(twin))
+        ctx.diff('oracle', 'engine-aliasing', case, fmt(d_[1]), fmt(d_[2]),
+                 f'slot {d_[0]:#x}: key operations on one engine changed another engine made by the same constructor call')
     for slot, (ectr, eiv, fctr, fcbc) in early.items():
         want = spec[slot][2]
         for kind, f in (('ctrio', fctr), ('cbcio', fcbc)):
